@@ -20,8 +20,8 @@ import (
 	"k8s.io/apimachinery/pkg/runtime"
 	"k8s.io/apimachinery/pkg/types"
 	"k8s.io/client-go/kubernetes/fake"
-	"k8s.io/client-go/tools/cache"
 	k8stesting "k8s.io/client-go/testing"
+	"k8s.io/client-go/tools/cache"
 )
 
 // VerifCtl drives the real LoadBalancerController.sync (production constructor, fake clientsets,
@@ -30,10 +30,10 @@ import (
 type VerifCtl struct {
 	Arb       *VerifArb
 	LastProbe VProbe
-	lbc  *LoadBalancerController
-	rec  *verifRecorder
-	conf *fake_v1.Clientset
-	kube *fake.Clientset
+	lbc       *LoadBalancerController
+	rec       *verifRecorder
+	conf      *fake_v1.Clientset
+	kube      *fake.Clientset
 }
 
 // VEvent is one recorded Event, identified by the kind/namespace/name of its object.
@@ -389,4 +389,25 @@ func (v *VerifCtl) Leader() []VStatusWrite {
 	v.conf.ClearActions()
 	createLeaderHandler(v.lbc).OnStartedLeading(context.Background())
 	return v.statusWrites()
+}
+
+// VMaster is the rendering projection of one master Ingress that is in GetResources().
+type VMaster struct {
+	Master string                    `json:"master"`
+	Locs   map[string][]configs.VLoc `json:"locs"` // server name -> locations
+}
+
+// Mergeable renders every master Ingress that is active now through the real createMergeableIngresses and
+// generateNginxCfgForMergeableIngresses.
+func (v *VerifCtl) Mergeable() []VMaster {
+	out := []VMaster{}
+	for _, r := range v.lbc.configuration.GetResources() {
+		ic, ok := r.(*IngressConfiguration)
+		if !ok || !ic.IsMaster {
+			continue
+		}
+		mi := v.lbc.createMergeableIngresses(ic)
+		out = append(out, VMaster{Master: getResourceKey(&ic.Ingress.ObjectMeta), Locs: configs.VerifMergeableLocations(v.lbc.configurator, mi)})
+	}
+	return out
 }
